@@ -64,6 +64,9 @@ type cfunc struct {
 	name   string
 	intrinsic intrinsicFn
 	recoverBlock int
+	pdOnce sync.Once
+	ipdom  []int
+	effectful bool
 }
 
 type intrinsicFn func(it *Interp, fr *frame, args []Value) Value
@@ -98,6 +101,7 @@ func (p *Program) doCompile(fn *ssa.Function) *cfunc {
 	cf := &cfunc{fn: fn, name: funcName(fn), recoverBlock: -1}
 	if in, ok := intrinsics[cf.name]; ok {
 		cf.intrinsic = in
+		cf.effectful = strings.HasPrefix(cf.name, mainPkgPath+".vp") && cf.name != mainPkgPath+".vpSymbolic"
 		return cf
 	}
 	if fn.Blocks == nil {
@@ -214,6 +218,8 @@ func (p *Program) doCompile(fn *ssa.Function) *cfunc {
 				ci.aux = p.callInfo(&ins.Call)
 			case *ssa.Go:
 				ci.aux = p.callInfo(&ins.Call)
+			case *ssa.If:
+				ci.aux = &mergeSite{}
 			case *ssa.Extract:
 			case *ssa.MakeClosure:
 			case *ssa.ChangeInterface:
@@ -315,6 +321,7 @@ type frame struct {
 	panicVal  *goPanic
 	result    Value
 	pos       token.Pos
+	skipPhis  bool
 }
 
 type goPanic struct {
@@ -346,11 +353,15 @@ type Interp struct {
 	funcsEntered map[string]bool
 	frozenPre []*Obj
 	initSteps int64
+	spec      int
+	specBase  int
+	specSteps int
+	noMerge   bool
 	initWarn map[string]bool
 }
 
 func NewInterp(p *Program) *Interp {
-	it := &Interp{p: p, globals: map[*ssa.Global]Ptr{}, mapSnap: map[*MapObj]bool{}, maxSteps: 20_000_000, funcsEntered: map[string]bool{}}
+	it := &Interp{noMerge: os.Getenv("GOSX_NOMERGE") != "", p: p, globals: map[*ssa.Global]Ptr{}, mapSnap: map[*MapObj]bool{}, maxSteps: 20_000_000, funcsEntered: map[string]bool{}}
 	return it
 }
 
@@ -379,6 +390,9 @@ func (it *Interp) get(fr *frame, o *operand) Value {
 }
 
 func (it *Interp) abort(kind, detail string) {
+	if it.spec > 0 {
+		panic(specFail{"abort " + kind})
+	}
 	panic(&pathAbort{kind, detail})
 }
 
@@ -416,6 +430,9 @@ func (it *Interp) stackString(fr *frame) string {
 }
 
 func (it *Interp) goPanicf(fr *frame, format string, args ...interface{}) {
+	if it.spec > 0 {
+		panic(specFail{"runtime panic"})
+	}
 	msg := fmt.Sprintf(format, args...)
 	panic(&goPanic{val: it.runtimeErrorValue(msg), msg: msg, pos: it.stackString(fr)})
 }
@@ -439,6 +456,9 @@ func (it *Interp) call(caller *frame, fv FuncV, args []Value) Value {
 		return nil
 	}
 	if cf.intrinsic != nil {
+		if it.spec > 0 && cf.effectful {
+			panic(specFail{"harness primitive"})
+		}
 		return cf.intrinsic(it, caller, args)
 	}
 	if cf.blocks == nil {
@@ -480,6 +500,7 @@ func (it *Interp) runFrame(fr *frame) {
 		if fr.cf.recoverBlock >= 0 {
 			fr.prev = fr.block
 			fr.block = fr.cf.recoverBlock
+			fr.skipPhis = false
 		} else {
 			fr.block = -1
 			fr.result = it.zeroResults(fr.cf.fn)
@@ -487,13 +508,14 @@ func (it *Interp) runFrame(fr *frame) {
 	}()
 	for {
 		cb := fr.cf.blocks[fr.block]
-		next := it.execBlock(fr, cb)
+		next, skip := it.execBlock(fr, cb, fr.skipPhis)
 		if next < 0 {
 			fr.block = -1
 			return
 		}
 		fr.prev = fr.block
 		fr.block = next
+		fr.skipPhis = skip
 	}
 }
 
@@ -547,9 +569,9 @@ func (it *Interp) runDefer(fr *frame, d deferred) {
 }
 
 // execBlock runs the instructions of one block and returns the next block index (-1 = return).
-func (it *Interp) execBlock(fr *frame, cb *cblock) int {
+func (it *Interp) execBlock(fr *frame, cb *cblock, skipPhis bool) (int, bool) {
 	// phis read their inputs simultaneously
-	if cb.phis > 0 {
+	if cb.phis > 0 && !skipPhis {
 		// find predecessor edge index
 		ssab := fr.cf.fn.Blocks[cb.index]
 		edge := -1
@@ -575,6 +597,12 @@ func (it *Interp) execBlock(fr *frame, cb *cblock) int {
 	for i := cb.phis; i < len(cb.instrs); i++ {
 		ci := &cb.instrs[i]
 		it.steps++
+		if it.spec > 0 {
+			it.specSteps++
+			if it.specSteps > specBudget {
+				panic(specFail{"budget"})
+			}
+		}
 		if it.steps > it.maxSteps {
 			it.abort("limit", fmt.Sprintf("instruction budget %d exceeded at %s", it.maxSteps, it.stackString(fr)))
 		}
@@ -666,12 +694,9 @@ func (it *Interp) execBlock(fr *frame, cb *cblock) int {
 			panic("phi in the middle of a block")
 		case *ssa.If:
 			c := it.get(fr, &ci.ops[0]).(*Term)
-			if it.branch(fr, c) {
-				return cb.succs[0]
-			}
-			return cb.succs[1]
+			return it.doIf(fr, cb, ci, c)
 		case *ssa.Jump:
-			return cb.succs[0]
+			return cb.succs[0], false
 		case *ssa.Return:
 			switch len(ci.ops) {
 			case 0:
@@ -685,13 +710,22 @@ func (it *Interp) execBlock(fr *frame, cb *cblock) int {
 				}
 				fr.result = t
 			}
-			return -1
+			return -1, false
 		case *ssa.RunDefers:
+			if it.spec > 0 && len(fr.defers) > 0 {
+				panic(specFail{"defers"})
+			}
 			it.runDefers(fr)
 		case *ssa.Panic:
+			if it.spec > 0 {
+				panic(specFail{"panic"})
+			}
 			v := it.get(fr, &ci.ops[0])
 			panic(&goPanic{val: v, msg: it.describePanic(v), pos: it.stackString(fr)})
 		case *ssa.Defer:
+			if it.spec > 0 {
+				panic(specFail{"defer"})
+			}
 			info := ci.aux.(*callInfo)
 			fv, args := it.prepareCall(fr, ci, &ins.Call, info)
 			fr.defers = append(fr.defers, deferred{fv: fv, args: args, ins: ins})
@@ -789,6 +823,9 @@ func (it *Interp) doCall(fr *frame, ci *cinstr, c *ssa.CallCommon) (res Value) {
 // ---- memory
 
 func (it *Interp) noteWrite(fr *frame, p Ptr) {
+	if it.spec > 0 && (p.obj == nil || p.obj.id <= it.specBase) {
+		panic(specFail{"store to outer memory"})
+	}
 	if p.obj == nil {
 		return
 	}
